@@ -112,6 +112,9 @@ pub struct SCase {
     pub slots: Vec<Slot>, // counterpart layout in declaration order
     pub cp_named: bool,
     pub update: bool,
+    /// struct-level ghosts written as a default DECOY instruction (wrong values) followed by the real ones dedicated to
+    /// each counterpart: the dedicated instruction must win whatever the order (seeds C01-03, C02-03, C03-03)
+    pub decoy: bool,
     pub tags: Vec<String>,
 }
 
@@ -306,9 +309,13 @@ pub fn gen(ctx: &mut Ctx, o: &Opts) -> Option<SCase> {
             tags.push("ghosts-leading".into());
         }
     }
+    let decoy = n_ghosts > 0 && form != CpForm::BareTuple && ctx.flag();
+    if decoy {
+        tags.push("ghosts-decoy".into());
+    }
     tags.sort();
     tags.dedup();
-    Some(SCase { shape, form, members, slots, cp_named, update, tags })
+    Some(SCase { shape, form, members, slots, cp_named, update, decoy, tags })
 }
 
 /// which trait instructions the rendered deriving type carries
@@ -405,7 +412,17 @@ impl SCase {
         }
         // struct-level ghosts
         let gs: Vec<String> = self.slots.iter().filter_map(|s| if let SlotSrc::Ghosts(mk) = s.src { Some(format!("{}: {{{}}}", s.name, mk)) } else { None }).collect();
-        if !gs.is_empty() {
+        if !gs.is_empty() && self.decoy {
+            let decoys: Vec<String> = self.slots.iter().filter_map(|s| if let SlotSrc::Ghosts(mk) = s.src { Some(format!("{}: {{{}}}", s.name, 9900 + mk)) } else { None }).collect();
+            it.attrs.push(Instr::new("ghosts", None, &decoys.join(", ")));
+            let cps: Vec<String> = match fl {
+                Flavour::Infallible | Flavour::Fallible => vec![self.cp_type(false)],
+                Flavour::Both => vec![self.cp_type(false), self.cp_type(true)],
+            };
+            for cp in cps {
+                it.attrs.push(Instr::new("ghosts", Some(&cp), &gs.join(", ")));
+            }
+        } else if !gs.is_empty() {
             it.attrs.push(Instr::new("ghosts", None, &gs.join(", ")));
         }
         for nm in ["ghosts_owned", "ghosts_ref"] {
